@@ -180,7 +180,7 @@ def ddmin(items, test, max_tests=400):
     persists."""
     n = 2
     tests = 0
-    while len(items) >= 2 and tests < max_tests:
+    while len(items) >= 2 and tests < max_tests and not min_expired():
         chunk = max(1, len(items) // n)
         subsets = [items[i:i + chunk] for i in range(0, len(items), chunk)]
         reduced = False
@@ -232,6 +232,7 @@ def shrink_text(text, cls):
 
 def make_finding(rec, plan):
     cls = rec["class"]
+    set_min_budget()
     record = {"engine": "fuzzsim", "plan": plan, "run_seed": plan.get("run_seed", plan.get("entropy")),
               "observed": {"class": cls, "detail": rec.get("detail"), "fnv": rec.get("fnv")}}
     text = rec.get("text")
